@@ -6,6 +6,7 @@ import (
 	"errors"
 	"flag"
 	"fmt"
+	"math/rand"
 	"os"
 	"os/exec"
 	"os/signal"
@@ -268,3 +269,142 @@ func (c *c11Flush) Kind() string { return "flush/rlimit" }
 var _ = errors.New
 
 func (c *c11Flush) Evals() int { return len(c.Limits) }
+
+// ---- C11, system level: a compaction cycle whose write system calls fail beyond a file-size limit, then a
+// restart: the cycle must report the failure, and the directory must re-open to the same content (an incomplete
+// merged table must never be installed, neither now nor by recovery)
+
+type c11Compact struct {
+	NTables int   `json:"ntables"`
+	ValLen  int   `json:"val_len"`
+	Limits  []int `json:"limits"`
+	// observations, one per limit
+	CycleErr []bool   `json:"cycle_err"`
+	Bad      []string `json:"bad"` // "" or what is wrong after the restart
+	Fatal    string   `json:"fatal,omitempty"`
+}
+
+type compactChildArgs struct {
+	Dir   string `json:"dir"`
+	Limit int    `json:"limit"`
+}
+
+func compactChild(args []string) int {
+	fs := flag.NewFlagSet("c11compact", flag.ExitOnError)
+	in := fs.String("args", "", "json")
+	_ = fs.Parse(args)
+	var a compactChildArgs
+	childArgs(*in, &a)
+	r := &dbRunner{dir: a.Dir}
+	if err := r.open(dbOpts{MemstoreBytes: 1 << 30, Threshold: 1, MaxSize: 5 << 30, RatioPct: 100, WBuf: 4096, RBuf: 4096}); err != nil {
+		fmt.Println("OPENERR", err)
+		return 0
+	}
+	signal.Ignore(syscall.SIGXFSZ)
+	lim := syscall.Rlimit{Cur: uint64(a.Limit), Max: uint64(a.Limit)}
+	must(syscall.Setrlimit(syscall.RLIMIT_FSIZE, &lim))
+	_, _, _, err := r.db.VerifRunCompaction()
+	if err != nil {
+		fmt.Println("CYCLEERR")
+	} else {
+		fmt.Println("CYCLEOK")
+	}
+	// the process ends here without Close: whatever the cycle left on disk is what the next Open finds
+	return 0
+}
+
+func init() { subcommands["c11compact"] = compactChild }
+
+func (c *c11Compact) Exec() {
+	defer func() {
+		if r := recover(); r != nil {
+			c.Fatal = fmt.Sprint("panic: ", r)
+		}
+	}()
+	c.Fatal, c.CycleErr, c.Bad = "", nil, nil
+	// build the directory once: NTables tables with incompressible values, overlapping keys and a delete
+	base := tmpDir("c11c-")
+	defer os.RemoveAll(base)
+	r := &dbRunner{dir: filepath.Join(base, "db")}
+	must(os.MkdirAll(r.dir, 0755))
+	opts := dbOpts{MemstoreBytes: 1 << 30, Threshold: 1, MaxSize: 5 << 30, RatioPct: 100, WBuf: 4096, RBuf: 4096}
+	must(r.open(opts))
+	ref := map[string][]byte{}
+	rnd := rand.New(rand.NewSource(int64(c.NTables*1000 + c.ValLen)))
+	for t := 0; t < c.NTables; t++ {
+		for k := 0; k < 3; k++ {
+			key := fmt.Sprintf("key-%d", (t+k)%5)
+			v := make([]byte, c.ValLen)
+			rnd.Read(v)
+			must(r.db.PutBytes([]byte(key), v))
+			ref[key] = v
+		}
+		if t == c.NTables-1 {
+			must(r.db.Delete("key-0"))
+			delete(ref, "key-0")
+		}
+		s := dbStep{Op: "rotate"}
+		r.step(&s)
+	}
+	must(r.db.Close())
+	self, _ := os.Executable()
+	for _, lim := range c.Limits {
+		work := filepath.Join(base, "work")
+		os.RemoveAll(work)
+		must(copyTree(r.dir, work))
+		a, _ := json.Marshal(compactChildArgs{Dir: work, Limit: lim})
+		out, err := exec.Command(self, "c11compact", "--args", string(a)).CombinedOutput()
+		if err != nil {
+			c.Fatal = fmt.Sprintf("child failed: %v %s", err, out)
+			return
+		}
+		c.CycleErr = append(c.CycleErr, bytes.Contains(out, []byte("CYCLEERR")))
+		bad := ""
+		if bytes.Contains(out, []byte("OPENERR")) {
+			bad = "the prepared directory did not open: " + string(out)
+		} else {
+			r2 := &dbRunner{dir: work}
+			if err := r2.open(opts); err != nil {
+				bad = "after the failed cycle the directory does not re-open: " + err.Error()
+			} else {
+				for k := 0; k < 5 && bad == ""; k++ {
+					key := fmt.Sprintf("key-%d", k)
+					v, err := r2.db.GetBytes([]byte(key))
+					want, ok := ref[key]
+					if ok && (err != nil || !bytes.Equal(v, want)) {
+						bad = fmt.Sprintf("after the restart %s reads differently (err %v, %d bytes, want %d bytes)", key, err, len(v), len(want))
+					}
+					if !ok && err == nil {
+						bad = fmt.Sprintf("after the restart the deleted %s is readable again", key)
+					}
+				}
+				r2.db.Close()
+			}
+		}
+		c.Bad = append(c.Bad, bad)
+	}
+}
+
+func (c *c11Compact) Oracle() (bool, string) {
+	if c.Fatal != "" {
+		return false, c.Fatal
+	}
+	for i, b := range c.Bad {
+		if b != "" {
+			return false, fmt.Sprintf("compaction cycle under file size limit %d (cycle reported error: %v): %s", c.Limits[i], c.CycleErr[i], b)
+		}
+	}
+	return true, ""
+}
+func (c *c11Compact) Sx() string { return "" }
+func (c *c11Compact) Nontrivial() bool {
+	e := 0
+	for _, x := range c.CycleErr {
+		if x {
+			e++
+		}
+	}
+	return e >= 1
+}
+func (c *c11Compact) Kind() string { return "compaction/rlimit" }
+func (c *c11Compact) Evals() int   { return len(c.Limits) }
